@@ -1038,31 +1038,58 @@ package gmars
 //@   loop 1
 //@     invariant 0 - 1 <= rangeindex && rangeindex < len(c.lines)
 //@     decreases len(c.lines) - rangeindex
-//@ trusted buildReferenceGraph
+// graph.go: the reference graph of the EQU table (range over maps: the loop body sees some key of the map, in no
+// particular order; such loops carry invariants but no termination claim)
+//@ func buildReferenceGraph
+//@   panics [C05][C07]
 //@   modifies nothing
-//@ trusted graphContainsCycle
+//@   ensures fresh(result)
+//@   loop 1
+//@     invariant graph != nil && fresh(graph)
+// an entry lists only symbols of the table
+//@     invariant [C07] forall k: Str, j :: has(graph, k) && 0 <= j && j < len(graph[k]) ==> has(values, graph[k][j])
+//@   loop 2
+//@     invariant 0 - 1 <= rangeindex && rangeindex < len(tokens) && fresh(arr(keyRefs)) && graph != nil && fresh(graph)
+//@     invariant [C07] forall j :: 0 <= j && j < len(keyRefs) ==> has(values, keyRefs[j])
+//@     invariant [C07] forall k: Str, j :: has(graph, k) && 0 <= j && j < len(graph[k]) ==> has(values, graph[k][j]) && arr(graph[k]) != arr(keyRefs)
+//@     decreases len(tokens) - rangeindex
+//@ func nodeContainsCycle
+//@   panics [C05][C07]
+//@   modifies visited[*]
+//@   loop 1
+//@     invariant 0 - 1 <= rangeindex && rangeindex < len(symRefs)
+//@     decreases len(symRefs) - rangeindex
+//@ func graphContainsCycle
+//@   panics [C05][C07]
 //@   modifies nothing
-//@ trusted expandExpressions
+//@   loop 1
+//@     invariant true
+//@ pure valsAllocated(m map[string][]token) = forall k: Str :: has(m, k) ==> allocated(arr(m[k]))
+//@ func expandExpressions
+//@   panics [C05][C07][C14]
 //@   modifies nothing
-//@   ensures forall k: Str :: has(result.0, k) ==> allocated(arr(result.0[k]))
+//@   ensures result.1 == nil ==> valsAllocated(result.0)
+//@   loop 1
+//@     invariant resolved != nil && fresh(resolved) && valsAllocated(resolved)
 // expandValue resolves one symbol after every symbol it depends on; a symbol resolved once stays resolved. That all
 // dependencies are resolved when the value is substituted -- whatever order the caller's map iteration chose -- is
 // what makes the result independent of that order (C14).
 //@ func expandValue
 //@   panics [C05][C07][C14]
-//@   requires resolved != nil
+//@   requires resolved != nil && valsAllocated(resolved)
 //@   modifies resolved[*]
 //@   ensures [C07][C14] result.1 == nil ==> has(resolved, key)
+//@   ensures valsAllocated(resolved) && allocated(arr(result.0))
 //@   ensures [C14] forall k: Str :: old(has(resolved, k)) ==> has(resolved, k)
 //@   loop 1
-//@     invariant 0 - 1 <= rangeindex && rangeindex < len(deps) && resolved != nil
+//@     invariant 0 - 1 <= rangeindex && rangeindex < len(deps) && resolved != nil && valsAllocated(resolved)
 //@     invariant [C14] forall k: Str :: old(has(resolved, k)) ==> has(resolved, k)
 //@     invariant [C07][C14] forall j :: 0 <= j && j <= rangeindex ==> has(resolved, deps[j])
 //@     exit [C07][C14] forall j :: 0 <= j && j < len(deps) ==> has(resolved, deps[j])
 //@     exit header [C07][C14] forall j :: 0 <= j && j < len(deps) ==> has(resolved, deps[j])
 //@     decreases len(deps) - rangeindex
 //@   loop 2
-//@     invariant 0 - 1 <= rangeindex && rangeindex < len(value) && fresh(arr(output)) && resolved != nil
+//@     invariant 0 - 1 <= rangeindex && rangeindex < len(value) && fresh(arr(output)) && resolved != nil && valsAllocated(resolved)
 //@     invariant [C14] forall k: Str :: old(has(resolved, k)) ==> has(resolved, k)
 //@     decreases len(value) - rangeindex
 
@@ -1290,8 +1317,12 @@ package gmars
 //@   modifies ghost lex.*
 //@   ensures fresh(result) && parserOK(result) && result.lex == lex && fresh(result.symbols) && fresh(result.references)
 //@   ensures arr(result.lines) == 0 && arr(result.currentLine.labels) == 0 && arr(result.currentLine.a) == 0 && arr(result.currentLine.b) == 0
-//@ trusted (*parser).validateSymbols
+//@ func (*parser).validateSymbols
+//@   panics [C05]
+//@   requires p != nil
 //@   modifies nothing
+//@   loop 1
+//@     invariant true
 //@ func (*parser).parse
 //@   panics [C05]
 //@   requires parserOK(p)
